@@ -86,6 +86,7 @@ func (s *Script) meta() lint.LintMetadata {
 
 type mockConf struct {
 	A int
+	B int // set to 7 by every constructor and never by a generated configuration: a section that does not mention it must leave it alone
 }
 
 type mockCore struct {
@@ -111,6 +112,9 @@ func (m *mockCore) execute() *lint.LintResult {
 	m.calls++
 	if m.s.Stateful && m.calls != 1 {
 		return &lint.LintResult{Status: lint.Fatal, Details: fmt.Sprintf("instance reused: Execute call number %d on this instance", m.calls)}
+	}
+	if m.conf.B != 7 {
+		return &lint.LintResult{Status: lint.Fatal, Details: fmt.Sprintf("option B lost its constructor default 7: it is %d after configuration", m.conf.B)}
 	}
 	if m.s.ShowConf && m.conf.A != 0 {
 		return &lint.LintResult{Status: lint.Notice, Details: fmt.Sprintf("A=%d", m.conf.A)}
@@ -167,9 +171,9 @@ func (s *Script) certLint(log *[]int) *lint.CertificateLint {
 			panic(s.NewPanic)
 		}
 		if s.Cfg == "none" {
-			return &mockCert{mockCore{s: s, log: log}}
+			return &mockCert{mockCore{s: s, log: log, conf: mockConf{B: 7}}}
 		}
-		return &mockCertCfg{mockCert{mockCore{s: s, log: log}}}
+		return &mockCertCfg{mockCert{mockCore{s: s, log: log, conf: mockConf{B: 7}}}}
 	}}
 }
 
@@ -180,9 +184,9 @@ func (s *Script) crlLint(log *[]int) *lint.RevocationListLint {
 			panic(s.NewPanic)
 		}
 		if s.Cfg == "none" {
-			return &mockCrl{mockCore{s: s, log: log}}
+			return &mockCrl{mockCore{s: s, log: log, conf: mockConf{B: 7}}}
 		}
-		return &mockCrlCfg{mockCrl{mockCore{s: s, log: log}}}
+		return &mockCrlCfg{mockCrl{mockCore{s: s, log: log, conf: mockConf{B: 7}}}}
 	}}
 }
 
@@ -193,9 +197,9 @@ func (s *Script) ocspLint(log *[]int) *lint.OcspResponseLint {
 			panic(s.NewPanic)
 		}
 		if s.Cfg == "none" {
-			return &mockOcsp{mockCore{s: s, log: log}}
+			return &mockOcsp{mockCore{s: s, log: log, conf: mockConf{B: 7}}}
 		}
-		return &mockOcspCfg{mockOcsp{mockCore{s: s, log: log}}}
+		return &mockOcspCfg{mockOcsp{mockCore{s: s, log: log, conf: mockConf{B: 7}}}}
 	}}
 }
 
